@@ -26,7 +26,7 @@ fn model_id(prec: usize, cdf: &[u64]) -> String { format!("{}:{:?}", prec, cdf) 
 pub fn drive_ans(w: u32, s: u32, precs: &[usize], seed: u64, n_events: usize, out: &str) -> Report {
     let mut rep = Report::default();
     let mut rng = Xoshiro256StarStar::seed_from_u64(seed ^ ((w as u64) << 32) ^ ((s as u64) << 40));
-    let exact = s <= 16;
+    let exact = true; // all widths: validated by TraceAns.tla (s <= 16) and, as limb sequences, by TraceBigAns.tla (any width)
     let mut fe = std::io::BufWriter::new(std::fs::File::create(format!("{}.exact.ndjson", out)).unwrap());
     let mut fa = std::io::BufWriter::new(std::fs::File::create(format!("{}.abs.ndjson", out)).unwrap());
     let wmask: u128 = if w >= 128 { u128::MAX } else { (1u128 << w) - 1 };
